@@ -452,6 +452,9 @@ def rule_build_guards(F, ev_unused, R, config, rule="R-BUILD-GUARDS"):
     def in_fn(name):
         return lambda b: b.j.get("root", b.key).endswith(name)
 
+    # sites are found by the error variant they construct, wherever that happens (helpers may be renamed, split or inlined)
+    ANY = lambda b: True
+
     def chk(variant, fn_pred, matcher, what, minimum=1):
         sites = [x for x in err_sites(F, variant) if fn_pred(x[0])]
         if len(sites) < minimum:
@@ -472,14 +475,18 @@ def rule_build_guards(F, ev_unused, R, config, rule="R-BUILD-GUARDS"):
     from rules_panic import nosite
 
     # --- check_parameter_names -------------------------------------------------------
-    chk("EmptyParameters", in_fn("check_parameter_names"),
-        lambda c, b, e, s: conj_find(c, lambda f: (lambda t: t is not None and t[3][0] == P1(b))(atom_call(f, "::is_empty", True))),
+    def names_list(x, b):
+        """the checked name list: the function's list argument, or a Vec<String> field of the value being validated"""
+        rb = F.bodies.get(b.j.get("root", b.key), b)
+        return x == P1(b) or x == P1(rb) or (x[0] == "field" and x[1] == P1(rb) and "name" in x[2])
+    chk("EmptyParameters", ANY,
+        lambda c, b, e, s: conj_find(c, lambda f: (lambda t: t is not None and names_list(t[3][0], b))(atom_call(f, "::is_empty", True))),
         "name list empty")
-    chk("CommaInParameterNameNotAllowed", in_fn("check_parameter_names"),
+    chk("CommaInParameterNameNotAllowed", ANY,
         lambda c, b, e, s: conj_find(c, lambda f: f[0] == "exists" and f[1] == P1(b) and logic.mentions(f[2], lambda x: x[0] == "call" and x[1].endswith("::contains"))
                                       and logic.mentions(f[2], lambda x: x[0] == "const" and x[2] == 44) and f[2][0] != "not", under_exists=False),
         "a name contains a comma")
-    chk("DuplicateParameterNames", in_fn("check_parameter_names"),
+    chk("DuplicateParameterNames", ANY,
         lambda c, b, e, s: conj_find(c, lambda f: f[0] == "exists" and f[1] == P1(b) and f[2][0] == "not" and
                                       atom_call(f[2][1], "HashSet::insert", True) is not None, under_exists=False),
         "names not unique")
@@ -488,13 +495,13 @@ def rule_build_guards(F, ev_unused, R, config, rule="R-BUILD-GUARDS"):
         return conj_find(c, lambda f: f[0] == "rel" and f[1] == "Ne" and
                          any(x[0] == "constitem" and x[1].endswith("ARGUMENT_COUNT") for x in (f[2], f[3])) and
                          any(x[0] == "call" and x[1].endswith("::len") and x[3][0] == P1(b) for x in (f[2], f[3])))
-    chk("IncorrectParameterCount", in_fn("check_parameter_count"), arity_ne, "function parameter list length ≠ arity")
+    chk("IncorrectParameterCount", lambda b: F.bodies.get(b.j.get("root", b.key), b).j.get("impl", {}).get("self_adt") != ADT_MBUILDER, arity_ne, "function parameter list length ≠ arity")
     # --- create_index_mapping ------------------------------------------------------------
     def not_in_model(c, b, e, s):
         root = F.bodies[b.j.get("root", b.key)]
         full = ("param", root.key, 1)
         return conj_find(c, lambda f: f[0] == "forall" and f[1] == full and f[2][0] == "rel" and f[2][1] == "Ne" and ("item", full) in (f[2][2], f[2][3]))
-    chk("FunctionParameterNotInModel", in_fn("create_index_mapping"), not_in_model, "a function parameter is not a model parameter")
+    chk("FunctionParameterNotInModel", ANY, not_in_model, "a function parameter is not a model parameter")
     # --- function builder: partial_deriv ---------------------------------------------------
     fb = lambda b: b.j.get("impl", {}).get("self_adt") == ADT_FNBUILDER or (b.kind == "Closure" and ADT_FNBUILDER in b.j.get("root", ""))
     def invalid_deriv(c, b, e, s):
@@ -506,10 +513,39 @@ def rule_build_guards(F, ev_unused, R, config, rule="R-BUILD-GUARDS"):
             if not (dom[0] == "field" and dom[1] == P1(F.bodies[b.j.get("root", b.key)])):
                 return False
             return logic.mentions(f[2], lambda x: x == P2(F.bodies[b.j.get("root", b.key)])) and logic.mentions(f[2], lambda x: x[0] in ("item",))
-        return conj_find(c, ok, under_exists=False)
-    chk("InvalidDerivative", lambda b: fb(b) and b.j.get("root", b.key).endswith("partial_deriv"), invalid_deriv,
+        hit = conj_find(c, ok, under_exists=False)
+        if hit:
+            return hit
+        # equivalent disjunctive form (e.g. a lookup helper that first tests membership in the function's list and
+        # then searches the model list):  (the name is not in the function's parameters) ∨ (the name is not in the model's)
+        rb = F.bodies[b.j.get("root", b.key)]
+        name = P2(rb)
+
+        def not_in(f):
+            """the collection X such that f says `name ∉ X`, else None"""
+            if f[0] == "forall" and f[2][0] == "rel" and f[2][1] == "Ne" and name in (f[2][2], f[2][3]) and ("item", f[1]) in (f[2][2], f[2][3]):
+                return f[1]
+            if f[0] == "not" and f[1][0] == "exists" and f[1][2][0] == "rel" and f[1][2][1] == "Eq" and name in (f[1][2][2], f[1][2][3]) and ("item", f[1][1]) in (f[1][2][2], f[1][2][3]):
+                return f[1][1]
+            t = atom_call(f, "::contains", False)
+            if t is not None and len(t[3]) == 2 and t[3][1] == name:
+                return t[3][0]
+            return None
+
+        def ok2(f):
+            if f[0] != "or":
+                return False
+            xs = [not_in(d) for d in f[1]]
+            if any(x is None for x in xs):
+                return False
+            fields = set(x[2] for x in xs if x[0] == "field" and x[1] == P1(rb))
+            from rules_model import fnbuilder_list_roles
+            mrole, frole = fnbuilder_list_roles(F, ev)
+            return len(fields) == len(xs) and frole in fields and fields <= {mrole, frole}
+        return conj_find(c, ok2, under_exists=False)
+    chk("InvalidDerivative", fb, invalid_deriv,
         "derivative for a name that is not a parameter of the function")
-    chk("DuplicateDerivative", lambda b: fb(b) and b.j.get("root", b.key).endswith("partial_deriv"),
+    chk("DuplicateDerivative", fb,
         lambda c, b, e, s: conj_find(c, lambda f: f[0] == "atom" and f[1][0] == "present" and f[1][1][0] == "call" and f[1][1][1].endswith("HashMap::insert")),
         "second derivative for the same parameter")
     chk("MissingDerivative", fb,
@@ -524,11 +560,14 @@ def rule_build_guards(F, ev_unused, R, config, rule="R-BUILD-GUARDS"):
         ok = ok and any("check_completion" in c or c.endswith("Try::branch") for c in calls)
         R.add(rule, config, b.key, "function-released-only-after-completeness-check", ok, "" if ok else "function builder build() = `%s`" % short(v)[:160], b.j["span"])
     # --- SeparableModelBuilder::initial_parameters ------------------------------------------
+    RB = lambda b: F.bodies.get(b.j.get("root", b.key), b)
+
     def init_len(c, b, e, s):
+        # the check may sit in the method or in a closure it hands to a helper: the guess is the ROOT function's argument
         return conj_find(c, lambda f: f[0] == "rel" and f[1] == "Ne" and
-                         any(x[0] == "call" and x[1].endswith("::len") and x[3][0] == P2(b) for x in (f[2], f[3])) and
+                         any(x[0] == "call" and x[1].endswith("::len") and x[3][0] == P2(RB(b)) for x in (f[2], f[3])) and
                          any(x[0] == "call" and x[1].endswith("::len") and contains(x, lambda y: y[0] == "field" and y[2] == "parameter_names") for x in (f[2], f[3])))
-    chk("IncorrectParameterCount", lambda b: b.j.get("impl", {}).get("self_adt") == ADT_MBUILDER, init_len,
+    chk("IncorrectParameterCount", lambda b: RB(b).j.get("impl", {}).get("self_adt") == ADT_MBUILDER, init_len,
         "initial guess length ≠ number of model parameters")
     # --- try_into -----------------------------------------------------------------------------
     ti = lambda b: ADT_UNFINISHED in b.j.get("root", b.key) and b.j.get("root", b.key).endswith("try_into")
@@ -601,12 +640,43 @@ def rule_build_guards(F, ev_unused, R, config, rule="R-BUILD-GUARDS"):
                     need["mapping"] = True
             for k, v in need.items():
                 R.add(rule, config, b.key, "wrapped-fn-needs:" + k, v, "" if v else "a function can be wrapped without the check `%s`" % k, b.j["span"])
-    # ModelBasisFunctionBuilder::new: invalid function parameter names end in Err
+    # ModelBasisFunctionBuilder::new: a function is stored as Ok only if the function's parameter names passed the
+    # names check (early return, `?`, or a combinator chain `check(..).and_then(..)` — all give the same formula)
+    ncs = [x for x in F.bodies.values() if x.kind != "Closure" and len(x.j.get("inputs", [])) == 1 and x.j["inputs"][0].startswith("&[")
+           and x.j.get("output", "").replace(" ", "") == "std::result::Result<(),%s>" % ADT_BUILDERR]
     for b in inherent_methods(F, ADT_FNBUILDER, "new"):
-        v = ev.ret_val(Env(b))
-        alts = v[1] if v[0] == "phi" else (v,)
-        ok = len(alts) == 2 and all(a[0] == "agg" and a[1] == ADT_FNBUILDER for a in alts)
-        R.add(rule, config, b.key, "new: invalid names ⇒ Err result", ok, "" if ok else "`%s`" % short(v)[:160], b.j["span"])
+        if len(ncs) != 1:
+            R.bad(rule, config, b.key, "new: invalid names ⇒ Err result", "names check function not identified (%d candidates)" % len(ncs), b.j["span"])
+            continue
+        from rules_model import strip_copies, fnbuilder_list_roles
+        mrole, frole = fnbuilder_list_roles(F, ev)
+        evn = Eval(F, opaque=set(ev.opaque) | {ncs[0].key})
+        Ln = logic.Logic(evn)
+        ncid = strip_generics(ncs[0].j["path"])
+        rfield = [f["name"] for f in struct_fields(F, ADT_FNBUILDER) if f["ty"].startswith("std::result::Result<")][0]
+        sites = [(bi, si, st) for bi, si, st in b.stmts() if st["k"] == "assign" and st["rv"]["k"] == "agg" and st["rv"].get("adt") == ADT_FNBUILDER]
+        ok = bool(sites)
+        msg = "no builder value constructed"
+        for bi, si, st in sites:
+            v = evn.rvalue(Env(b), st["rv"], (bi, si))
+            f = dict(v[3])
+            r = f.get(rfield)
+            if r[0] == "agg" and r[2] == "Err":
+                continue
+            conds = Ln.conditions_at(b, Env(b), bi)
+            if r[0] != "none":
+                conds = conds + [Ln.of_option(r, True)]
+            lst = nosite(logic.canon_index(logic.norm_elems(strip_copies(f.get(frole)))))
+
+            def passed(fm):
+                if fm[0] == "atom" and fm[1][0] == "present":
+                    t = fm[1][1]
+                    return t[0] == "call" and t[1] == ncid and nosite(logic.canon_index(logic.norm_elems(strip_copies(t[3][0])))) == lst
+                return False
+            if not conj_find(conds, passed):
+                ok = False
+                msg = "a function can be stored as Ok although its parameter names did not pass the names check: `%s`" % short(r)[:120]
+        R.add(rule, config, b.key, "new: invalid names ⇒ Err result", ok, "" if ok else msg, b.j["span"])
     R.floor(rule, config, 24, "error sites and success conditions of the eight validating functions")
 
 
